@@ -33,8 +33,17 @@ REPO_PKG = os.path.realpath(os.path.join(os.environ.get('COPULAS_REPO', '/repo')
 def reset_process_globals():
     """Bring process-global library state back to its import-time value, so that a
     run does not depend on what the worker process executed before it."""
+    # every run starts from a freshly imported library: whatever the library keeps at module
+    # or class level (caches, registries, counters, re-entrancy markers) is back at its
+    # import-time value, so a run cannot see what earlier runs of this worker process did
+    for name in [k for k in sys.modules if k == 'copulas' or k.startswith('copulas.')]:
+        del sys.modules[name]
+    import copulas  # noqa: F401
     import copulas.bivariate.base as bb
     import copulas.bivariate.independence  # noqa: F401 - make 'independence' resolvable, always
+    import copulas.datasets  # noqa: F401
+    import copulas.multivariate  # noqa: F401
+    import copulas.univariate  # noqa: F401
 
     def walk(cls):
         for sub in cls.__subclasses__():
